@@ -75,7 +75,7 @@ func (o Op) short() string {
 		return fmt.Sprintf("import(id%d,m%d)", o.ID, o.M)
 	case "kget":
 		return fmt.Sprintf("kget(id%d %s)", o.ID, o.Ref)
-	case "screate", "sclose", "reg", "unreg":
+	case "screate", "sclose", "reg", "unreg", "mreg", "munreg":
 		return fmt.Sprintf("%s(%d)", o.Kind, o.U)
 	case "add":
 		return fmt.Sprintf("add(r%d,m%d)", o.U, o.M)
@@ -94,7 +94,7 @@ func (o Out) short() string {
 		return fmt.Sprintf("%s %d", o.Kind, o.V)
 	case "tags":
 		return fmt.Sprintf("tags%v", o.T)
-	case "bulk", "batch", "batchfail":
+	case "bulk", "batch", "batchfail", "served":
 		return fmt.Sprintf("%s%v", o.Kind, o.Vs)
 	case "query":
 		return fmt.Sprintf("query%v", o.R)
